@@ -51,6 +51,17 @@ TEXT.update({
  },
 })
 
+TEXT.update({
+ "C22": {
+  "engine": "M",
+  "technique": "typed symbolic evaluation of the rustc MIR of the LUT kernels with path merging (one term per function), z3 floating-point and bit-vector theories",
+  "level": "Formula equalities are decided for ALL doubles (rescale) and all finite x/center/width/y_max (linear, linear-exact, sigmoid modulo an uninterpreted exp) in one query each; "
+           "stored-sample interpretation for bits stored 1-16 and both signednesses over all indices; range and monotonicity over ALL stored values for sampled parameter sets "
+           "(the property's own quantifier samples parameters).",
+  "note": "IEEE-754 RNE semantics for MIR float ops; table construction loop abstracted as entry i = f(i); VoiLutTransform tables and bits stored 17-32 outside; native cross-check of the encoding on the repo's test vectors",
+ },
+})
+
 _NOTYET = "check not built yet in this session (design in DESIGN.md §3); not claimed until its harness has produced a verdict"
 NOT_APPLICABLE = {p: _NOTYET for p in ["C%02d" % i for i in range(1, 37)]}
 NOT_APPLICABLE.update({
